@@ -33,6 +33,18 @@ class HistoryRun:
         self.committed = {}       # id -> list of {path: digest} per committed version (as staged at commit time)
         self.alg = {}             # id -> digest algorithm
         self.shapes = {}          # targeted generator shapes -> how often produced
+        # every other history starts from a populated object (names that clash as file/directory across trees,
+        # nested directories, duplicate content) so that the rare shapes have something to work on
+        self.preamble = []
+        if rng.random() < 0.5:
+            o = self.ids[0]
+            nC = len(hist.CONTENTS)
+            self.preamble = [{"op": "new", "id": o}] + [
+                {"op": "cp_ext", "id": o, "files": [[os.path.basename(nm), rng.randrange(nC)]], "dst": nm, "recursive": False}
+                for nm in ("a.txt", "dir/c.txt", "dir/sub/e.txt", "dir2/sub", "dir2/a.txt", "n")] + [
+                {"op": "cp_ext", "id": o, "files": [], "dir": ["d0", {"m.txt": rng.randrange(nC), "n/o.txt": rng.randrange(nC)}],
+                 "dst": "moved", "recursive": True},
+                {"op": "commit", "id": o}]
         for c in hist.CONTENTS:
             self.remember(c)
 
@@ -80,6 +92,18 @@ class HistoryRun:
         pick_path = lambda: rng.choice(paths) if paths and rng.random() < 0.8 else rng.choice(NAMES)
         pick_dir = lambda: rng.choice(dirs) if dirs and rng.random() < 0.7 else rng.choice(["dir", "newdir", "dir/sub"])
         nC = len(hist.CONTENTS)
+        cps = clash_pairs(paths)
+        if cps and rng.random() < 0.07:
+            # two source trees in which one NAME is a file in the first and a directory in the second: merged
+            # into one destination the name would be both (validate_non_conflicting must refuse one of them
+            # whatever order the destination map is iterated in)
+            d1, d2 = rng.choice(cps)
+            src = [d + "/*" if d else "*" for d in (d1, d2)]
+            rng.shuffle(src)
+            self.shapes["internal cp/mv merging two trees where one name is a file in one and a directory in the other"] = \
+                self.shapes.get("internal cp/mv merging two trees where one name is a file in one and a directory in the other", 0) + 1
+            return {"op": rng.choice(["cp_int", "cp_int", "mv_int"]), "id": oid, "version": None, "src": src,
+                    "dst": rng.choice(["merged", "merged/", pick_dir(), "/"]), "recursive": True}
         r = rng.random()
         if r < 0.24:
             style = rng.random()
@@ -104,11 +128,27 @@ class HistoryRun:
                 src = [pick_dir()]
             elif k < 0.9:
                 src = [rng.choice(["*", "*.txt", "dir/*", pick_dir() + "/*", "?.txt"])]
-            else:
+            elif k < 0.95:
                 src = [pick_path(), pick_path()]
+            else:
+                # several source trees merged into one destination (names may clash as file vs directory)
+                src = [rng.choice(["dir/*", "dir2/*", pick_dir() + "/*", pick_dir(), "*"]) for _ in range(2)]
+                self.shapes["internal cp/mv of several globs/directories into one destination"] = \
+                    self.shapes.get("internal cp/mv of several globs/directories into one destination", 0) + 1
             dst = rng.choice([pick_path(), pick_dir(), pick_dir() + "/", "/", rng.choice(NAMES), "new/"])
             nmain = len(view["main"][oid][1]["versions"]) if oid in view["main"] else 0
             ver = None if op == "mv_int" or rng.random() < 0.6 or nmain == 0 else rng.randint(1, nmain + 1)
+            sinv = view["staged"].get(oid)
+            if sinv is not None and rng.random() < 0.12:
+                # the staged head named EXPLICITLY by its number (not Head), source = a file new in the staged version
+                hnum = absinv.vnum_of(sinv["head"])
+                newp = sorted(p for p, d in absinv.head_state_map(sinv).items()
+                              if any(cp.startswith(sinv["head"] + "/") and cp.endswith("/" + p) for cp in absinv.manifest_map(sinv)))
+                if newp:
+                    self.shapes["cp_int with the staged head given as an explicit number, source new in the staged version"] = \
+                        self.shapes.get("cp_int with the staged head given as an explicit number, source new in the staged version", 0) + 1
+                    return {"op": "cp_int", "id": oid, "version": hnum, "src": [rng.choice(newp)],
+                            "dst": rng.choice([rng.choice(NAMES), pick_dir() + "/", "copy-of-new.txt"]), "recursive": False}
             if nmain > 0 and rng.random() < 0.3:
                 # cross-version shape: the source is taken from the tree of an older version, the destination from
                 # names whose file/directory status DIFFERS between that version and the staged head (the
@@ -195,7 +235,7 @@ class HistoryRun:
     def run(self):
         for k in range(self.length):
             pre_view = self.view()
-            op = self.gen_op(pre_view)
+            op = self.preamble[k] if k < len(self.preamble) else self.gen_op(pre_view)
             st = Step()
             st.k, st.op, st.pre = k, op, pre_view
             st.pre_main_snap = self.r.snap_main()
@@ -231,6 +271,17 @@ class HistoryRun:
 
     def close(self):
         self.r.close()
+
+
+def clash_pairs(paths):
+    """pairs of directories (d1, d2), "" = root, such that some name is a FILE directly in d1 and a DIRECTORY directly in d2"""
+    children = {}
+    for p in paths:
+        parts = p.split("/")
+        for i in range(len(parts)):
+            children.setdefault("/".join(parts[:i]), {})[parts[i]] = "f" if i == len(parts) - 1 else "d"
+    return sorted((d1, d2) for d1 in children for d2 in children if d1 != d2
+                  and any(k == "f" and children[d2].get(n) == "d" for n, k in children[d1].items()))
 
 
 def concrete_sources(run, cmd, op):
